@@ -263,7 +263,7 @@ pub fn run(g: &mut Global) {
         &check,
     );
     let cap = g.tier.pick(256usize, 2048usize);
-    g.random("random", g.tier.pick(150000, 600000), &move || strategy(cap, false), &check);
+    g.random("random", g.tier.pick(400000, 800000), &move || strategy(cap, false), &check);
     if g.tier == Tier::Thorough {
         g.random("deep", 3000, &move || strategy(64, true), &check);
     }
